@@ -97,11 +97,21 @@ class LowerBase:
     def resolve_base(self, base, ctx_node):
         """base type name -> ('c', ctype) | ('rec', id) | ('enum', id)"""
         b = base.strip()
-        if b.startswith('(lambda at '):
-            rid = self.ast.lambda_by_type.get(b)
-            if rid is None:
-                raise Unsupported('closure type %s not found' % b)
-            return ('rec', rid)
+        if '(lambda at ' in b:
+            # closures of one source location (and the specialisations over them) print alike in every instantiation of the
+            # enclosing template: take the one that belongs to the code being lowered
+            mloc = re.search(r'\(lambda at [^)]*\)', b)
+            cid = self.ast.ctx_closure(mloc.group(0), ctx_node) if (mloc and ctx_node is not None) else None
+            if b.startswith('(lambda at ') and b == mloc.group(0):
+                rid = cid or self.ast.lambda_by_type.get(b)
+                if rid is None:
+                    raise Unsupported('closure type %s not found' % b)
+                return ('rec', rid)
+            if cid is not None:
+                tname = b.split('<')[0].split('::')[-1].strip()
+                cands = [sid for (nm, sid, c) in self.ast.specs_over_closures if nm == tname and c == cid and self.ast.node(sid).get('completeDefinition')]
+                if len(cands) == 1:
+                    return ('rec', cands[0])
         if 'type-parameter-' in b:
             # member typedef named through the (dependent-looking) printed form of a partial specialisation:
             # resolve the member name in the context of the instantiation instead
@@ -440,6 +450,9 @@ class LowerBase:
             # closure types of different instantiations of one template share a C struct when their captures agree
             if self.is_lambda(n):
                 best += '[' + ', '.join(self.ast.tstr(f['type']) for f in self.ast.fields(n)) + ']'
+        if rid in self.ast.spec_closure:
+            # specialisation over a closure type: one C struct per capture signature of that closure
+            best += '{' + self.rec_pretty(self.ast.spec_closure[rid]) + '}'
         return best
 
     def need_record(self, rid):
@@ -451,7 +464,15 @@ class LowerBase:
         self.rec_emitting.add(rid)
         n = self.ast.node(rid)
         if self.model_record(rid):
-            self.rec_text[rid] = self.model_struct(rid)
+            text = self.model_struct(rid)
+            tag = self.rec_tag(rid)
+            for orid, otext in self.rec_text.items():
+                if self.rec_names.get(orid) == tag:
+                    if otext != text:
+                        raise Unsupported('two different modelled records lower to the same tag %s' % tag)
+                    self.rec_done.add(rid); self.rec_emitting.discard(rid)
+                    return
+            self.rec_text[rid] = text
             self.rec_order.append(rid); self.rec_done.add(rid); self.rec_emitting.discard(rid)
             return
         if not n.get('completeDefinition') or (self.rec_is_external(rid) and not self.model_record(rid)):
